@@ -614,6 +614,9 @@ class X12SegmentDataNode(X12DataNode):
         @return: the element value at the relative X12 path
         @rtype: string
         """
+        (curr, new_path_str) = self._get_start_node(x12_path_str)
+        if curr is not self:
+            return curr.get_value(new_path_str)
         seg_data = self.get_first_matching_segment(x12_path_str)
         if seg_data is None:
             return None
@@ -627,6 +630,9 @@ class X12SegmentDataNode(X12DataNode):
         @param val: The new element value
         @type val: string
         """
+        (curr, new_path_str) = self._get_start_node(x12_path_str)
+        if curr is not self:
+            return curr.set_value(new_path_str, val)
         seg_data = self.get_first_matching_segment(x12_path_str)
         if seg_data is None:
             raise errors.X12PathError('X12 Path is invalid or was not found: %s' % (x12_path_str))
@@ -647,6 +653,9 @@ class X12SegmentDataNode(X12DataNode):
         @raise X12PathError: On blank or invalid path
         """
         (curr, new_path_str) = self._get_start_node(x12_path_str)
+        if curr is not self:
+            # a '../' path leads to the enclosing loop
+            return curr.get_first_matching_segment(new_path_str)
         xpath = path.X12Path(new_path_str)
         if len(xpath.loop_list) != 0:
             raise errors.X12PathError('This X12 Path should not contain loops: %s' % (x12_path_str))
